@@ -6,6 +6,7 @@ import (
 	"encoding/json"
 	"fmt"
 	"sort"
+	"syscall"
 	"testing"
 
 	"github.com/cocosip/go-dicom-codecs/codec"
@@ -495,17 +496,53 @@ func Check(c *Case) (o core.Outcome) {
 		})
 		done <- res{lo, f}
 	}()
-	select {
-	case r := <-done:
-		o = r.o
-		if r.f != nil {
-			o.Fail = r.f
-			o.Label("panicked")
+	// A call counts as hung when this process has burnt hangCPU of user CPU time since the call
+	// started (a loop that never ends does; a slow machine does not: wall-clock time alone is no
+	// verdict). A call that is still out after hangWall without that much CPU is inconclusive.
+	cpu0 := userCPU()
+	start := time.Now()
+	tick := time.NewTicker(2 * time.Second)
+	defer tick.Stop()
+	for {
+		select {
+		case r := <-done:
+			o = r.o
+			if r.f != nil {
+				o.Fail = r.f
+				o.Label("panicked")
+			}
+			return
+		case <-tick.C:
+			if time.Since(start) < hangLimit {
+				continue
+			}
+			if used := userCPU() - cpu0; used >= hangCPU {
+				o.Label("hung")
+				o.Fail = core.Failf("hang", "%s encoder (%s level) did not return within %v (%.0f s of user CPU) for w=%d h=%d comps=%d depth/BA=%d BS=%d arg=%d buffer=%d bytes", c.Enc, c.Level, time.Since(start).Round(time.Second), used.Seconds(), c.W, c.H, c.C, c.P+c.BA, c.BS, c.Arg, c.Buf)
+				return
+			}
+			if time.Since(start) >= hangWall {
+				o.Label("inconclusive-slow")
+				core.Count("inconclusive_slow_calls", 1)
+				o.NonTrivial = false
+				return
+			}
 		}
-	case <-time.After(hangLimit):
-		o.Label("hung")
-		o.Fail = core.Failf("hang", "%s encoder (%s level) did not return within %v for w=%d h=%d comps=%d depth/BA=%d BS=%d arg=%d buffer=%d bytes", c.Enc, c.Level, hangLimit, c.W, c.H, c.C, c.P+c.BA, c.BS, c.Arg, c.Buf)
 	}
+}
+
+const (
+	hangCPU  = 120 * time.Second
+	hangWall = 540 * time.Second
+)
+
+func userCPU() time.Duration {
+	var ru syscall.Rusage
+	_ = syscall.Getrusage(syscall.RUSAGE_SELF, &ru)
+	return time.Duration(ru.Utime.Sec)*time.Second + time.Duration(ru.Utime.Usec)*time.Microsecond
+}
+
+func unusedReturn() {
 	return
 }
 
